@@ -41,7 +41,9 @@ def symptoms_of(r: dict) -> list[tuple[str, str, dict]]:
         if j.get("bcnt"):
             out.append(("names", "branch-count-emitted", {}))
         if j.get("rejected_jobs"):
-            out.append(("accept", "rejects-input", {"rejected_job_indices": j["rejected_jobs"][:5]}))
+            kind = "failed-merge" if j.get("failed_merge_signature") else "other"
+            out.append(("accept", "rejects-input:" + kind,
+                        {"rejected_job_indices": j["rejected_jobs"][:5]}))
         ex = j.get("extra")
         if ex and not ex["ok"]:
             out.append(("extra", "extra-language", {"witness_job": ex["witness"]}))
